@@ -155,6 +155,13 @@ def decisions(L, p, moved):
 
 
 def run(ctx):
+    if ctx.pid != "C02":
+        # included by another property's check: once per run is enough
+        key = ("c02", getattr(ctx, "rule_suffix", ""))
+        done = ctx.__dict__.setdefault("_groups_done", set())
+        if key in done:
+            return
+        done.add(key)
     ctx.explanation = __doc__
     f = ctx.facts("A")
     L = lift.Lifter(f)
